@@ -5,5 +5,51 @@ ID = 'C05'
 PROPS_MODULE = ['Refine.Props.C05']
 STREAMS = [streams_metric.INTERP_KERNEL, streams_metric.INTERP_GRID, cli.ADAPT_METRIC]
 
-EXPLANATION = 'placeholder'
-ASSUMPTIONS = ['placeholder']
+EXPLANATION = (
+    'Proved in Lean over the reals, about the executable model (Refine/Model/Metric.lean: interpolateNode = '
+    'ref_node_clip_bary4, the `log_m[im] += bary[ibary]*log_parent_m[ibary][im]` loop over the donors\' STORED logs, '
+    'ref_node_metric_set_log; nodeMetricSet / nodeMetricSetLog = the stored pair (m, log m) of ref_node; '
+    'interpolateEdgeMetric = the metric half of ref_node_interpolate_edge): '
+    '(d) uniform reproduction: equal donor logs and weights summing to one combine to the same log '
+    '(logCombine_uniform, logCombine_uniform3), so the interpolant of a uniform SPD field is that metric, also through the '
+    'clipping code path with arbitrary stored barycentric weights (logEuclid_uniform, interpolateNode_uniform); '
+    '(e) log-linear exactness: if the donors\' logs are an affine function of position and the weights are the '
+    'barycentric coordinates of the point, the combined log is the affine function at the point, all six components '
+    '(logCombine_loglinear, logCombine_loglinear3), so the stored pair is (exp_m(L(p)), L(p)) (logEuclid_loglinear); '
+    '(f) spectrum: the quadratic form of the combined log is the convex combination of the donors\' forms and lies '
+    'between their min and max (interp_quadratic_form_range); Loewner bounds lo*I <= log_i <= hi*I carry over to the '
+    'combination (logCombine_between, logCombine_between3), through exp_m by monotonicity on the spectrum '
+    '(expM_between) and from the donors\' metrics through log_m (logM_between): every eigenvalue of the interpolated '
+    'metric lies between the smallest and largest eigenvalue of the donors, l_lo |x|^2 <= x^T M x <= l_hi |x|^2 '
+    '(interp_spectrum), in particular it is positive definite (between_pos_spd); '
+    'code path facts: a successful interpolation always uses weights w >= 0 with sum 1 — never an extrapolation — and '
+    'stores m = exp_m(log) (interpolateNode_convex); edge-split insertion is the same kernel with weights (1-t, t) '
+    '(interpolateEdge_is_interp); the two setters of ref_node keep the pair consistent (nodeMetricSet_pair, '
+    'nodeMetricSetLog_pair, nodeMetricSet_consistent). '
+    'Tied, not proved: bit comparison with the C of ref_node_metric_set/_set_log/_get/_get_log, the interpolation '
+    'statements of ref_metric_interpolate_node and ref_node_interpolate_edge (stream metric_interp_kernel); the REAL '
+    'ref_metric_interpolate_node (moved vertex) and ref_metric_interpolate_between (inserted vertex) run in process on '
+    'tet and triangle bricks whose background is cached exactly as `ref adapt` does (ref_node_metric_set per vertex, '
+    'ref_grid_cache_background): the donor cell and weights found by the search, the donors\' stored logs and the '
+    'receptor\'s stored pair are dumped and recomputed bit for bit by the model (metric_interp_grid, validate). '
+    'Oracles (independent 50-digit Jacobi exp/log, exact rational combination): stored log = sum w_i log_i, stored metric = '
+    'exp of it, uniform fields reproduced, log-linear fields reproduced at the vertex position to 1e-9, eigenvalues '
+    'inside the donors\' range. End to end: `ref adapt` (cli_adapt_metric: uniform reproduction and spectrum bounds at '
+    'every output vertex after splits, collapses, swaps and smoothing).')
+
+ASSUMPTIONS = [
+    'theorems hold in exact real arithmetic about the model; IEEE rounding is modelled (Float instance, bit-compared), '
+    'not verified ("reproduced to round-off" is oracled with 1e-9..1e-13 tolerances, not proved)',
+    'wherever exp_m / log_m enter a theorem the inner eigen decompositions are assumed exact (IsEigSys: orthonormal and '
+    'formM d = m), as in C16: the QL similarity invariant is not proved; the linear-algebra statements (logCombine_*, '
+    'interp_quadratic_form_range, logCombine_between) need no such hypothesis',
+    'log-linear exactness needs the weights to be the barycentric coordinates of the vertex in its donor cell, i.e. the '
+    'vertex inside the cell (outside, the clipped weights reproduce the field at the clipped point: C11)',
+    '2-D backgrounds sum three donors with weights clipped over four slots: the theorems for three donors assume '
+    'w0+w1+w2 = 1 (the stored fourth weight is 0 for triangles; observed, not proved)',
+    'the donor search (ref_interp_locate_node / _between: walk, tree fallback), ref_interp_pack, ref_interp_from_part and '
+    'the migration alignment of (cell, bary, part) are NOT modelled: tied in process for the serial search '
+    '(metric_interp_grid) and end to end only (cli_adapt_metric; parallel runs are covered by the C04 streams)',
+    'ref_metric_interpolate (the blind-send field transfer) shares the combination loop but is not driven separately',
+    'Python oracle arithmetic (fractions, 50-digit decimal Jacobi) is trusted',
+]
